@@ -32,8 +32,10 @@
 EXTENDS Integers, Sequences, FiniteSets, TLC
 
 CONSTANTS Configured,                       \* len(globals.iceServers) > 0  (initVideoCalls enabled)
-          DEV_DetachedPartyOutlivesSession  \* TRUE = as built: a callee session that accepted while NOT attached to the topic
+          DEV_DetachedPartyOutlivesSession, \* TRUE = as built: a callee session that accepted while NOT attached to the topic
                                             \*        is a party the topic never sees leaving (unregisterSession is per attachment)
+          FIX_DetachedAcceptRefused         \* FALSE = as built. TRUE = the repair proposed in known_findings_c15.notes.md: "accept" is
+                                            \*        taken only from a session attached to the topic (then the deviation above cannot arise)
 
 Sessions == {"s1", "s2", "s3", "s4", "s5"}
 SessUser == [s1 |-> "u1", s2 |-> "u2", s3 |-> "u1", s4 |-> "u2", s5 |-> "u3"]
@@ -98,6 +100,7 @@ CallEvent(S, a) ==
   ELSE IF a.event \in {EvRinging, EvAccept} THEN
     IF c.accepted THEN Res(S, 0)                                \* len(parties) != 1
     ELSE IF c.orig = s \/ c.origUid = u THEN Res(S, 0)          \* only from the callee
+    ELSE IF FIX_DetachedAcceptRefused /\ a.event = EvAccept /\ s \notin S.att THEN Res(S, 0)
     ELSE LET fwd == {[to |-> x, ev |-> a.event, seq |-> c.seq, from |-> u, via |-> "topic"] : x \in {c.orig} \cap S.live}   \* originator.queueOut
          IN IF a.event = EvRinging THEN [st |-> S, out |-> [NoOut EXCEPT !.infos = fwd], opt |-> {}]
             ELSE \* accept: replacement {data} authored by the originator, callee session becomes a party, timer stopped
@@ -262,10 +265,11 @@ M_RelayOnlyToPeer(P, a, O, Q) ==
           \cup If(\A i \in O.infos : i.ev \in Relayed => i.ev = a.event, "RelayOnlyToPeer:only_the_event_sent_is_relayed")
         ELSE If(\A i \in O.infos : i.ev \notin Relayed, "RelayOnlyToPeer:relay_without_request"))
 
-\* an event of the right call, from the right role, that can reach the topic, IS relayed to the peer
-Reaches(P, a) == a.s \in P.att \/ (a.s \in MemberSess /\ a.event \in HubEvents)
+\* an event of the right call, from the right role, sent by a session attached to the topic, IS relayed to the peer
+\* (whether the server also honours ringing / accept of a callee session that is NOT attached - it does today, through the hub -
+\* is not stated by the property: no obligation either way here; the binding covers what the code does)
 M_Relayed(P, a, O, Q) ==
-  IF ~(IsCallNote(a) /\ a.t = "p12" /\ a.s \in P.live /\ P.call.active /\ a.seq = P.call.seq /\ Reaches(P, a)) THEN {} ELSE
+  IF ~(IsCallNote(a) /\ a.t = "p12" /\ a.s \in P.live /\ P.call.active /\ a.seq = P.call.seq /\ a.s \in P.att) THEN {} ELSE
   If(a.event \in {EvRinging, EvAccept} /\ ~P.call.accepted /\ Actor(a) # P.call.origUid
        => \E i \in O.infos : i.to = P.call.orig /\ i.ev = a.event /\ i.via = "topic", "Relayed:ringing_accept_reach_the_caller_session")
   \cup If(a.event \in Exchange /\ P.call.accepted /\ a.s \in P.call.parties
